@@ -213,6 +213,72 @@ theorem after_variableEnd (s : TState) (hs : Sh s.p.toks) :
     exact Sh.after_ve hs
 
 
+/-! ### expression-level helpers of the statement parser -/
+
+section plevel
+variable {rec : Nat → P Expr} (Hrec : ∀ m, G true (rec m))
+include Hrec
+
+theorem GN.setFilters : ∀ n acc, GN n (setFilters rec n acc) := by
+  have hf := G.parseFilter Hrec
+  intro n
+  induction n with
+  | zero => intro acc s hs; omega
+  | succ n ih =>
+    intro acc
+    unfold TParser.setFilters
+    gntac
+
+theorem G.parseLiteralMap : G false (parseLiteralMap rec) := by
+  have hm := G.parseMap Hrec
+  unfold TParser.parseLiteralMap
+  gtac
+
+omit Hrec in
+theorem parseMap_value (s s' : PState) (e : Expr) (h : parseMap rec s = .ok e s') :
+    (∃ m, e = .const (.map m)) ∨ (∃ es, e = .map es) := by
+  unfold Parser.parseMap at h
+  obtain ⟨n, s1, _, h⟩ := bind_ok_inv h
+  obtain ⟨r, s2, _, h⟩ := bind_ok_inv h
+  obtain ⟨entries, lit⟩ := r
+  simp only [] at h
+  obtain ⟨_, s3, _, h⟩ := bind_ok_inv h
+  cases lit
+  · simp only [Bool.false_eq_true, if_false, pure_def, P.pure_apply, Res.ok.injEq] at h
+    exact Or.inr ⟨entries, h.1.symm⟩
+  · simp only [if_true, pure_def, P.pure_apply, Res.ok.injEq] at h
+    exact Or.inl ⟨_, h.1.symm⟩
+
+omit Hrec in
+/-- `parse_literal_map` only ever returns a map: the `as_map().unwrap()` at parser.rs:1376 is safe -/
+theorem parseLiteralMap_value (s s' : PState) (v : Value) (h : parseLiteralMap rec s = .ok v s') :
+    ∃ es, v = .map es := by
+  unfold TParser.parseLiteralMap at h
+  obtain ⟨_, s1, _, h⟩ := bind_ok_inv h
+  obtain ⟨e, s2, he, h⟩ := bind_ok_inv h
+  rcases parseMap_value s1 s2 e he with ⟨m, rfl⟩ | ⟨es, rfl⟩
+  · simp only [pure_def, P.pure_apply, Res.ok.injEq] at h
+    exact ⟨m, h.1.symm⟩
+  · simp [P.err] at h
+
+theorem G.componentDefault (C : Cfg) : G false (componentDefault C rec) := by
+  have h1 := G.parseArray Hrec C
+  have h2 := G.parseLiteralMap Hrec
+  unfold TParser.componentDefault
+  gtac
+
+theorem GN.componentArgs (C : Cfg) : ∀ n kw seen, GN n (componentArgs C rec n kw seen) := by
+  have h1 := G.componentDefault Hrec C
+  intro n
+  induction n with
+  | zero => intro kw seen s hs; omega
+  | succ n ih =>
+    intro kw seen
+    unfold TParser.componentArgs
+    gntac
+
+end plevel
+
 section level
 variable {C : Bool → Cfg} {recU : EndCheck → T (List Node)} {ex : Bool → Nat → P Expr}
 variable (Hex : ∀ il m, G true (ex il m))
@@ -320,7 +386,7 @@ macro_rules
         | with_reducible refine TG.tagEnd_rec (by assumption) _ (fun _ => ?_)
         | with_reducible exact TG.tagEnd_rec0 (by assumption) _
         | with_reducible refine TG.withFuel (fun _ => ?_)
-        | with_reducible refine TGN.bind_tgn_g (by with_reducible apply_assumption) (fun _ => ?_)
+        | (with_reducible refine TGN.bind_tgn_g ?_ (fun _ => ?_); focus (with_reducible apply_assumption))
         | with_reducible refine TG.bind_ff ?_ (fun _ => ?_)
         | dsimp only
         | split))
@@ -337,9 +403,9 @@ macro_rules
         | with_reducible apply TGN.ite
         | with_reducible refine TGN.tagEnd_rec (by assumption) _ (fun _ => ?_)
         | (refine TG.toTGN _ ?_; with_reducible exact TG.tagEnd_rec0 (by assumption) _)
-        | with_reducible refine TGN.bind_strict (by tgstrict; done) (fun _ => ?_)
-        | with_reducible refine TGN.bind_weak (by tgtac; done) (fun _ => ?_)
-        | with_reducible refine TGN.bind_tgn_g ?_ (fun _ => by tgtac; done)
+        | (with_reducible refine TGN.bind_strict ?_ (fun _ => ?_); focus (tgstrict; done))
+        | (with_reducible refine TGN.bind_weak ?_ (fun _ => ?_); focus (tgtac; done))
+        | (with_reducible refine TGN.bind_tgn_g ?_ (fun _ => ?_); rotate_left; focus (tgtac; done))
         | dsimp only
         | split))
 
